@@ -15,10 +15,11 @@ RULE = ("valid streams of every method (sequential, kd-tree, Edgebreaker standar
         "unchanged, and a refused allocation must be an array sized by a declared element count. The Lean model decodes "
         "the same bytes: status (ok / error / unknown version) for every stream the model decides, consumed bytes and "
         "geometry for sequential streams; distinct op lines")
-THEOREM_BACKED = ("decode_total (a result and a status for every byte string), decode_input_pure (the outcome is a function "
-                  "of the bytes; the remaining input is a suffix of the input), unknown_version_rejected / version gate "
-                  "decision logic, decode_error_iff_none (status = ok exactly when a geometry is returned), fuel lemmas "
-                  "(metadata nesting, symbol table) imported from C11 / C08")
+THEOREM_BACKED = ("decode_total (an outcome for every byte string), decode_returns_status (geometry and status ok, or no "
+                  "geometry and an error status), decode_some_ok_valid, decode_consumes_prefix / consumed_le_length (the "
+                  "remaining input is a suffix of the caller's bytes), unknown_major_rejected / unknown_minor_rejected "
+                  "(version gate), fuel sufficiency: metadata_nesting_fuel_sufficient, symbol_table_fuel_sufficient, "
+                  "le_groups_fuel_sufficient, delta_decode_fuel_sufficient")
 CORRESPONDENCE_ONLY = ("memory safety, absence of undefined behaviour and termination of the compiled C++ are observed "
                        "(ASan+UBSan, guard pages, watchdog) on the generated corruption campaign, not proved; kd-tree and "
                        "Edgebreaker decoders are outside the model")
@@ -42,7 +43,9 @@ def generate(rng, tier):
         cases.append(R.make_case(s.data, "01234", FLAVOUR, ORACLES, ("valid", s.cls)))
     small = [s for s in streams if len(s.data) <= 400]
     if thorough:
-        plan = [(s, "full" if len(s.data) <= 260 else "dense") for s in streams]
+        by_len = sorted(streams, key=lambda s: len(s.data))
+        plan = [(s, "full") for s in by_len[:16]] + [(s, "dense") for s in streams]
+        plan += [(s, "counts") for s in rng.sample(small, min(len(small), 12))]
     else:
         dense = rng.sample(streams, min(len(streams), 14))
         plan = [(s, "light") for s in streams] + [(s, "dense") for s in dense]
